@@ -102,14 +102,16 @@ def make_script(sc: dict, i: int):
                     ctrls.append((c["src"], c["seid"]))
             payload = {}
             for eid in (0, 1):
-                payload[f"S{i}.{eid}"] = {f"S{a}.{ae}": {ATTRS[h(seed, i, t, k, "bca", ci) % 2]: token(i, n, eid, ci % 4) + 500000}
+                # (None is a value like any other: an agent may send it, e.g. to clear a set-point)
+                payload[f"S{i}.{eid}"] = {f"S{a}.{ae}": {ATTRS[h(seed, i, t, k, "bca", ci) % 2]:
+                                                          (None if h(seed, i, t, k, "bcn", ci, eid) % 5 == 0 else token(i, n, eid, ci % 4) + 500000)}
                                           for ci, (a, ae) in enumerate(ctrls)}
             asyncs.append(("set_data", None, payload))
         for c in ([] if sc.get("broadcast_set_data") else agents_of):
             rr = h(seed, i, t, k, "sd", c["src"])
             if rr % 3 != 0:
                 # this simulator (agent) sets data for an entity of the connection's source
-                payload = {f"S{i}.{c['deid']}": {f"S{c['src']}.{c['seid']}": {ATTRS[rr % 2]: token(i, n, 0, 0) + 500000}}}
+                payload = {f"S{i}.{c['deid']}": {f"S{c['src']}.{c['seid']}": {ATTRS[rr % 2]: (None if (rr >> 4) % 5 == 0 else token(i, n, 0, 0) + 500000)}}}
                 asyncs.append(("set_data", c["src"], payload))
         for req in sc.get("extra_async", []):
             if req["sim"] == i and req["n"] == n:
